@@ -203,7 +203,7 @@ def t_to_async_iter(E):
                         ms = fn_.attrs.get('q').fields.get('maxsize') if fn_.attrs.get('q') is not None else None
                         E.oblige(Qn + '/pre(put_nowait).hand_over_queue_is_unbounded',
                                  z3.BoolVal(isinstance(ms, VInt) and ms.concrete() is not None and ms.concrete() <= 0),
-                                 props={'C16'})
+                                 props={'C16', 'C03'})
                         x = args[0]
                         if not isinstance(x, VVal):
                             raise Unsupported('put of %r' % (x,), node)
@@ -291,7 +291,8 @@ def t_to_async_iter(E):
             exc = pe.exc
         E.cover('%s/exit[%s]' % (Qn, kind))
         out = E.w['gen_out']
-        E.oblige(Qn + '/ensures.yields_exactly_the_source_elements_in_order', out == S_.src, props={'C16'})
+        # buffer.map() hands to_async_iter(iterable) to the buffer: C03 ("via map()") rests on this clause too
+        E.oblige(Qn + '/ensures.yields_exactly_the_source_elements_in_order', out == S_.src, props={'C16', 'C03'})
         if kind == 'end':
             E.oblige(Qn + '/ensures.ends_normally_only_if_the_source_did', z3.Not(S_.fails), props={'C16'})
         else:
@@ -705,7 +706,8 @@ def t_ensure_aw(E):
         if kind == 'return' or exc.info.get('origin') == 'awaitable':
             E.oblige(Qn + '/ensures.awaitable_evaluated_exactly_once_on_the_target_loop',
                      z3.And(z3.BoolVal(len(ev) == 1), ev[0][0] == aw.t if ev else False,
-                            ev[0][1] == target if ev else False))
+                            ev[0][1] == target if ev else False), props={'C17', 'C07'},
+                     detail='wait_from_anywhere() runs the buffer\'s wait() through this: on the buffer\'s loop, once')
         E.oblige(Qn + '/ensures.loop_lock_released', z3.BoolVal(not st.get('held_loop_locks')))
     E.run_paths(body)
 
@@ -936,10 +938,10 @@ def t_lemmas(E):
 
 
 TASKS = {
-    'bridges.to_async_iter': (t_to_async_iter, {'C16'}),
+    'bridges.to_async_iter': (t_to_async_iter, {'C16', 'C03'}),
     'bridges.to_sync_iter': (t_to_sync_iter, {'C16'}),
     'bridges.lemmas': (t_lemmas, {'C16'}),
-    'bridges.ensure_aw': (t_ensure_aw, {'C17'}),
+    'bridges.ensure_aw': (t_ensure_aw, {'C17', 'C07'}),
     'bridges.run_aw_threadsafe': (t_run_aw_threadsafe, {'C17'}),
     'bridges.loop_in_thread': (t_loop_in_thread, {'C17'}),
     'bridges._get_loop_lock': (t_get_loop_lock, {'C17'}),
